@@ -312,6 +312,8 @@ def regress_programs():
     out.append(("blank-capture", P([["capture", "c", [_t(" \n ")]], _t("["), ["output", ["var", "c"]], _t("]")])))
     out.append(("render-carry", P([["assign", "a", ["lit", "hello" + E]], ["render", "p0", None, [["y", ["var", "a"]]]], ["assign", "b", ["lit", 7]]],
                                   [("p0", [["assign", "z", ["var", "y"]], ["render", "p1", None, []], ["output", ["var", "z"]]]), ("p1", [["capture", "q", [_t(G + G)]], ["output", ["var", "q"]]])])))
+    out.append(("render-through-assignment-free-partial", P([["assign", "a", ["lit", "hello world " + E]], ["render", "p0", None, []], ["include", "p0", None, []]],
+                                  [("p0", [_t("["), ["render", "p1", None, [["y", ["lit", 2]]]], _t("]")]), ("p1", [["capture", "b", [["for", "v", ["lit", [1, 2, 3]], [_t("ж")], []]]], ["output", ["var", "y"]], ["render", "p2", None, []]]), ("p2", [["assign", "z", ["lit", "deep"]]])])))
     out.append(("render-for-locals-persist", P([["render", "p0", [True, ["var", "arr"], "y"], []]],
                                                [("p0", [["capture", "acc", [["output", ["var", "acc"]], ["output", ["var", "y"]]]], ["output", ["var", "acc"]], _t("|")])],
                                                [("arr", ["né", "ж", "x"])])))
@@ -503,7 +505,7 @@ class LaxStream(_ProgStream):
     name = "lax"
     label = "lax"
     n_quick = 160
-    n_thorough = 2500
+    n_thorough = 1500
 
     def plan(self, case, base, spy):
         rng = Rng(case["seed"], "lax-plan")
